@@ -222,9 +222,11 @@ _REJ = re.compile(r'<<\s*"REJECT",\s*(\d+),\s*(\d+),\s*"([^"]*)",\s*(.*)>>$', re
 
 MAX_CHUNK_BYTES = 24 << 20
 # numbers TLC's JSON reader cannot take (fractions, exponents, NaN / Infinity, integers beyond 32 bits)
-# become strings: the specification then rejects the event instead of TLC failing on the file.  The
-# drivers log such quantities as limb / hex records on purpose; a float or a huge integer in a trace is
+# become one integer no generated value ever equals (a string would make TLC's "=" fail on the type): the
+# specification then rejects the event instead of TLC failing on the file.
+# The drivers log such quantities as limb / hex records on purpose; a float or a huge integer in a trace is
 # always something the library produced unexpectedly.
+BADNUM_SENTINEL = "-2147483647"
 _BADNUM = re.compile(r'"(?:[^"\\]|\\.)*"|-?\d+\.\d+(?:[eE][+-]?\d+)?|-?\d+[eE][+-]?\d+|NaN|-?Infinity|-?\d{10,}')
 
 
@@ -237,7 +239,7 @@ def _json_text(obj) -> str:
             return t
         if t.lstrip("-").isdigit() and -(1 << 31) < int(t) < (1 << 31):
             return t
-        return '"<number ' + t + '>"'
+        return BADNUM_SENTINEL
     return _BADNUM.sub(fix, txt)
 
 
